@@ -300,6 +300,10 @@ class ExprMixin:
         if e.attr == "inf" and isinstance(e.value, ast.Name) and e.value.id == "math" and "math" not in p.env:
             return T.scalar(T.XINT, T.XIntS.pinf)      # math.inf, used as the neutral element of a running min / max over integers
         base = self.ev(e.value, p)
+        if isinstance(base.ty, T.Obj) and base.ty.cls == "LabelEnc" and e.attr == "classes_":
+            # the fitted labels, each once (sorted by sklearn; the order is not modelled): assumed library contract
+            dom = base.fields["_enc"].dom          # the same listing at every read: a function of the label set
+            return self.uniq_seq(T.Set(T.INT), dom, p, at=TH.sorted_fn(T.INT)(dom), idx=lambda x: TH.sorted_idx_fn(T.INT)(dom, x))
         if isinstance(e.value, ast.Name) and not self.spec_mode and (
                 (isinstance(base.ty, T.Obj) and e.attr not in base.fields) or isinstance(base.ty, (T.Bag, T.Set, T.Map, T.Seq)) or base.ty in (T.EMPTYLIST, T.EMPTYSET, T.EMPTYDICT)):
             # a method reference, to be called later through its alias. The alias is resolved by the *name* of the container, which is only
@@ -482,6 +486,16 @@ class ExprMixin:
         raise Unsupported("unary operator")
 
     def ev_BinOp(self, e, p):
+        if isinstance(e.op, ast.Mult) and isinstance(e.left, ast.List) and len(e.left.elts) == 1 and not self.spec_mode:
+            # [x] * n: the positional list of n copies of x (empty for n <= 0)
+            x = self.ev(e.left.elts[0], p)
+            n = self.ev(e.right, p)
+            if x.ty.scalar and n.ty in (T.INT, T.BOOL):
+                n = self.coerce(n, T.INT).t
+                at = fresh("rep", z3.ArraySort(T.I, x.ty.sort()))
+                k = fresh("k", T.I)
+                self._assume(p, z3.ForAll([k], at[k] == x.t, patterns=[at[k]]))
+                return T.sv_seq(x.ty, z3.If(n > 0, n, z3.IntVal(0)), at)
         l = self.ev(e.left, p)
         r = self.ev(e.right, p)
         return self.binop(e.op, l, r, p, f"line {getattr(e, 'lineno', '?')}")
